@@ -13,3 +13,12 @@ import (
 func (h *Hub) VerifRegisterChecked(c api.ShipConnectionInterface, incomingRequest bool) {
 	h.registerCheckedConnection(c, incomingRequest)
 }
+
+// VerifServiceCounts returns the number of remote service records the hub keeps and how many
+// of them are paired (what checkAutoReannounce compares with the number of connections).
+func (h *Hub) VerifServiceCounts() (records, paired int) {
+	h.muxReg.Lock()
+	records = len(h.remoteServices)
+	h.muxReg.Unlock()
+	return records, h.numberPairedServices()
+}
